@@ -533,8 +533,8 @@ func (q *checker) bcheckAssignment(lhs *a.Expr, op t.ID, rhs *a.Expr) error {
 			return err
 		}
 
-		if !rhs.Effect().Pure() {
-			// No-op.
+		if !rhs.Effect().Pure() || rhs.Mentions(lhs) {
+			// No-op. After "x = x + 1", it is not true that (x == (x + 1)).
 
 		} else if lhs.MType().IsNumType() {
 			q.facts.appendBinaryOpFact(t.IDXBinaryEqEq, lhs, rhs)
